@@ -111,6 +111,7 @@ class Executor:
         self.fn = fn
         self.inputs = inputs or {}
         self.paths = []
+        self.diverged = []
         self.max_paths = max_paths
         self.unknown = []
 
@@ -417,7 +418,13 @@ class Executor:
             if dest:
                 self.store(p, dest.strip(), res)
             return self._go(p, tgt, depth + 1)
-        m = re.match(r"(?:(.+?) = )?(.+?)\((.*)\) -> (?:unwind|\[unwind)", t)
-        if m:  # diverging call (panic)
+        m = re.match(r"(?:(.+?) = )?(.+?)\((.*)\) -> (?:unwind|\[unwind|bb\d+;)", t)
+        if m:  # diverging call (panic): the path never returns; kept separately for the analyses that ask for it
+            p.label = "diverge"
+            try:
+                p.calls.append((m.group(2).strip(), [self.operand(p, a) for a in split_args(m.group(3))], None, list(p.cond), []))
+            except Exception:  # noqa: BLE001
+                p.calls.append((m.group(2).strip(), [], None, list(p.cond), []))
+            self.diverged.append(p)
             return
         self.unknown.append("terminator: " + t)
